@@ -32,7 +32,7 @@ import torch
 from lib.core import Ctx, run_check
 from lib.tlc import MachineryError, WORK
 
-KINDS = ["recurrent-linear", "batched-log-module", "identity-single", "whalley-wilmott", "black-scholes", "mlp-tanh"]
+KINDS = ["recurrent-linear", "batched-log-module", "identity-single", "inplace-single", "shared-module-prev", "whalley-wilmott", "black-scholes", "mlp-tanh"]
 
 
 def thash(*ts: torch.Tensor) -> str:
@@ -55,14 +55,14 @@ class World:
         self.deriv["d2"].list(lambda d: d.ul().spot, cost=5e-4)         # the pricer hands out the buffer itself
         torch.manual_seed(seed)
         self.hedgers = {"h1": self.make_hedger()}
-        self.hedgers["h2"] = self.clone_hedger(self.hedgers["h1"])        # same parameters: must agree with h1
+        self.hedgers["h2"] = self.clone_hedger(self.hedgers["h1"], sibling=True)   # same parameters: must agree with h1
         self.seed = seed * 1000
         self.vmap: Dict[str, int] = {}
         self.rmap: Dict[str, int] = {}
 
     # ---------------------------------------------------------------- hedgers
     def make_hedger(self):
-        from pfhedge.features import ModuleOutput, Moneyness, TimeToMaturity
+        from pfhedge.features import ModuleOutput, Moneyness, PrevHedge, TimeToMaturity
         from pfhedge.features.features import UnderlierLogSpot
         from pfhedge.nn import BlackScholes, Hedger, MultiLayerPerceptron, WhalleyWilmott
         dt = torch.float64
@@ -74,6 +74,18 @@ class World:
             return Hedger(torch.nn.Linear(5, 1, dtype=dt), ["log_moneyness", "max_log_moneyness", UnderlierLogSpot(), "variance", mo])
         if k == "identity-single":
             return Hedger(torch.nn.Identity(), ["underlier_spot"])
+        if k == "shared-module-prev":
+            # ONE ModuleOutput feature object (reading prev_hedge) shared by the hedgers of this world - a user re-using a
+            # feature list to compare two models.  A fresh clone gets its own feature object.
+            if getattr(self, "_building_fresh", False) or not hasattr(self, "_shared_mo"):
+                mo = ModuleOutput(torch.nn.Linear(2, 1, dtype=dt), [PrevHedge(), Moneyness()])
+                if not getattr(self, "_building_fresh", False):
+                    self._shared_mo = mo
+            else:
+                mo = self._shared_mo
+            return Hedger(torch.nn.Linear(2, 1, dtype=dt), [mo, "time_to_maturity"])
+        if k == "inplace-single":        # a user model whose first operation works in place on its input
+            return Hedger(torch.nn.Hardtanh(0.0, 1.0, inplace=True), ["underlier_spot"])
         if k == "whalley-wilmott":
             m = WhalleyWilmott(self.deriv["d1"])
             return Hedger(m, m.inputs())
@@ -85,9 +97,14 @@ class World:
             return Hedger(net, ["moneyness", "time_to_maturity", "prev_hedge"])
         raise KeyError(k)
 
-    def clone_hedger(self, h):
-        """A fresh hedger with the same parameters (no carried state)."""
-        fresh = self.make_hedger()
+    def clone_hedger(self, h, sibling: bool = False):
+        """A hedger with the same parameters and no carried state; a sibling shares the world's shared feature objects,
+        a fresh clone (the reference of every comparison) has feature objects of its own."""
+        self._building_fresh = not sibling
+        try:
+            fresh = self.make_hedger()
+        finally:
+            self._building_fresh = False
         fresh.model.load_state_dict(copy.deepcopy(h.model.state_dict()))
         for a, b in zip(fresh.inputs.features, h.inputs.features):
             if isinstance(a, torch.nn.Module):
